@@ -90,6 +90,14 @@ pub async fn run(ctx: &Ctx) {
         m.oracles.push(Box::new(Tags(tags.clone())));
         ctx.net.set_monitor(Box::new(m));
     }
+    // knob turn: side A's configured TURN server, a harness task with its own listening socket (both part of the baseline)
+    let turn = plan.knob("turn", 0);
+    if turn != 0 {
+        let c2 = Ctx { plan: plan.clone(), sh: ctx.sh.clone(), net: ctx.net.clone(), keys: ctx.keys.clone(), metrics: ctx.metrics.clone() };
+        tokio::spawn(vh::wrap_task(async move { super::hostile_turn::serve_benign(&c2, turn).await }));
+        // let the server bind before the baseline is taken
+        tokio::time::sleep(Duration::from_millis(1)).await;
+    }
     tokio::time::sleep(Duration::from_millis(1)).await;
     let baseline_tasks = ctx.metrics.num_alive_tasks();
     let baseline_socks = ctx.net.live_sockets();
@@ -506,7 +514,8 @@ pub async fn run(ctx: &Ctx) {
     }
     let final_state = [*state_rx[0].borrow(), *state_rx[1].borrow()];
     let final_reason = [reason_rx[0].borrow().clone(), reason_rx[1].borrow().clone()];
-    ctx.ev(&format!("final A={} B={}", state_name(final_state[0]), state_name(final_state[1])), &format!("reasons {:?} {:?}", final_reason[0], final_reason[1]));
+    let ice_final: Vec<String> = pcs_opt.iter().map(|p| p.as_ref().map(|p| format!("{:?}", p.ice_transport().state())).unwrap_or_else(|| "-".into())).collect();
+    ctx.ev(&format!("final A={} B={}", state_name(final_state[0]), state_name(final_state[1])), &format!("reasons {:?} {:?} ice {:?}", final_reason[0], final_reason[1], ice_final));
     if !kills.is_empty() {
         for s in 0..2 {
             if app_closed[s] {
@@ -555,6 +564,11 @@ pub async fn run(ctx: &Ctx) {
     drop(more_dcs);
     drop(pcs_opt);
     ctx.keys.lock().unwrap().clear();
+    if turn == 2 {
+        // the harness' TURN server holds the accepting end of the client's TCP connection; under a lasting partition it
+        // would never see the client's FIN and keep that (its own) socket open - the network comes back for the wait
+        ctx.net.set_blackhole(false);
+    }
     let mut ok = false;
     let mut waited = 0u64;
     let (mut tasks, mut socks) = (0usize, 0i64);
@@ -683,6 +697,23 @@ pub fn generate(prop: &str, seed: u64, idx: u64, tier: Tier) -> Plan {
     }
     let _ = tier;
     p.heal_at_ms = 0;
+    // further socket owners (drawn from their own stream, so that every other choice of the plan stays what it was): in
+    // WebRtc mode 12 % of the swarm runs use ICE-TCP (TCP-only active offerer x passive answerer, or UDP + passive TCP on
+    // both sides) and 12 % give side A a TURN allocation (UDP or TCP) on a well-behaved server played by the scenario
+    let mut rs = Rng::new(mix(mix(seed, idx), 0x736f_636b_6574_73));
+    // (not in the recovered-outage configuration: it puts ice_connection_timeout out of reach, and with a TCP pair selected
+    // rustrtc deliberately derives its disconnect threshold from that timeout instead of ice_disconnect_threshold)
+    if idx >= core && mode == 0 && !p.knobs.contains_key("outage_ms") {
+        match rs.below(100) {
+            0..=11 => {
+                p.knobs.insert("tcp".into(), *rs.pick(&[1i64, 3]));
+            }
+            12..=23 => {
+                p.knobs.insert("turn".into(), 1 + rs.below(2) as i64);
+            }
+            _ => {}
+        }
+    }
     p
 }
 
